@@ -152,7 +152,7 @@ Definition c08_req_ok (env : c08_env) (l : list snap_svc) (tr : list (str * trac
           then (ro_status o =? 200) && str_eqb (ro_served_by o) []
           else (ro_status o =? 503) && str_eqb (ro_served_by o) [] &&
                str_eqb (ro_body o) (render503 (e_page env) (custom_of_pages env (sn_has_pages s)) m)
-        | TPaused => str_eqb (ro_served_by o) [] || negb (ro_status o =? 200) || true   (* C07's business *)
+        | TPaused => true   (* held requests: property C07 *)
         | TRun =>
           (* forwarded: answered by one of the service's targets.  No claim when the
              service has no active target, or when the request carries a rollout cookie
